@@ -44,7 +44,10 @@ ASSUMPTIONS = [
     "evaluated by the real library only, whose verdict is compared with the model's per case",
     "perturbations are algebraic and keep every value well-formed (point + generator, 2*point, scalar + 1, 2*scalar, swap of two entries, "
     "the same field of another session / another proof); malformed encodings belong to C10",
-    "party identifiers are 1..n for PS (the convention ps.Prover's evaluation points assume); BLS additionally with identifiers 5,8,11,..",
+    "party identifiers: PS and BLS run with the party lists 1..n, 5,8,11,.., {2,256,257,65535} (TLC-enumerated) and seeded sorted lists from "
+    "1..65535, handed to Init in sorted order; the evaluation point of a party is its rank in that list (model and code); the full "
+    "perturbation catalogue is applied with 1..n, the identifier-related entries (witness / share presented under another party, unblinding "
+    "under another signer, fewer signers, one alteration per object) with the other lists",
     "DKG runs in-process; C08: the message pool is an unordered bag (explicit schedules from TLC incl. every 'public key overtakes commitment' "
     "pair, seeded random message / newest first / public keys first, and the FIFO policies); C09: per-link FIFO policies; every message is "
     "delivered exactly once to every addressee (agreement and totality of the broadcast are C02-C04); a key generation counts as stuck when "
@@ -167,6 +170,29 @@ def digests(rng):
             return [p.hex() for p in pick]
 
 
+def reid(c, rng):
+    """the same case with a seeded sorted party list (identifiers from 1..65535, not a multiple of 1..n: Lagrange coefficients are
+    invariant under scaling of the evaluation points, so such a list could not tell ranks from identifiers)"""
+    n = c["n"]
+    while True:
+        ids = sorted(rng.sample(range(1, 65536), n))
+        if ids != list(range(1, n + 1)) and any(ids[i] * 1 != ids[0] * (i + 1) for i in range(n)):
+            break
+    rank = {p: i for i, p in enumerate(c["ids"])}
+    return dict(c, ids=ids, S=[ids[rank[p]] for p in c["S"]])
+
+
+def seeded_id_cases(cases, rng, count):
+    """copies (new ids) of `count` cases that use a non-1..n party list, with seeded party lists"""
+    pool = [c for _, c in cases if c["ids"] != list(range(1, c["n"] + 1))]
+    nid = max([cid for cid, _ in cases] + [0]) + 1
+    out = []
+    for c in rng.sample(pool, min(count, len(pool))):
+        out.append((nid, reid(c, rng)))
+        nid += 1
+    return out
+
+
 def make_groups(cases, rng, chunk, bag=False, scheds=(), next_id=0):
     """cases: list of (id, case record). One group = one DKG session (+ a second one when cross-session entries need it). The PS
     perturbation entries of one signer set share the genuine objects (one group); all other cases are spread over groups of `chunk`.
@@ -194,7 +220,7 @@ def make_groups(cases, rng, chunk, bag=False, scheds=(), next_id=0):
         if not pool:
             continue
         c0 = rng.choice(pool)
-        same = [c for c in pool if (c["t"], c["L"]) == (c0["t"], c0["L"])]
+        same = [c for c in pool if (c["t"], c["L"], c["ids"]) == (c0["t"], c0["L"], c0["ids"])]
         picked = rng.sample(same, min(3, len(same)))
         cs = []
         for c in picked:
@@ -372,6 +398,7 @@ def run(pid):
         # with another concretisation of the message alphabet
         cases = [(i, c) for i, c in enumerate(recs)]
         cases += [(len(recs) + i, c) for i, c in enumerate(recs) if c["L"] <= 3]
+        cases += seeded_id_cases(cases, rng, 60 if tr == "quick" else 600)
         rng.shuffle(cases)
         cases.sort(key=lambda x: (x[1]["n"], x[1]["t"], x[1]["L"]))
     else:
@@ -382,6 +409,7 @@ def run(pid):
             print("NOTE property=%s the oracle wrappers (mpc/ps/verif_oracle.go, build tag verif) are absent: %d catalogue entries (oracle "
                   "sensitivity, challenge-computing forgeries) are not executed; the compensated alterations (exported API only) are" % (pid, len(need)))
             cases = [x for x in cases if x[1]["obj"] not in ("oracle", "forge")]
+        cases += seeded_id_cases(cases, rng, 120 if tr == "quick" else 1500)
         # what the model says about the catalogue
         nb = collections.Counter()
         for o in recs:
@@ -425,7 +453,7 @@ def run(pid):
         key_generations_with_overtaking_public_key=sum(1 for _, o in r2.prints if o["sch"] == "dkg" and o["kind"] == "reveal-before-commit"),
         configs=[dict(spec="Sig", constants=consts, distinct=r1.distinct, generated=r1.generated),
                  dict(spec="SigTrace", results=len(results), distinct=r2.distinct, generated=r2.generated)],
-        cases_executed=len(results), accepted=accepted, rejected=len(results) - accepted, dkg_sessions=summary["dkgs"],
+        cases_executed=len(results), accepted=accepted, rejected=len(results) - accepted, dkg_sessions=summary["dkgs"], dkg_stuck_not_reproduced=summary.get("dkg_stuck_not_reproduced", 0),
         monitor_failures=nviol_lines, drift=dict(drift), collisions_mod_q=collisions,
         known_findings_seen=sorted(verdict.known_seen),
         rule="states/transitions: TLC evaluations of the small-field model (one state per case before and after evaluation, for the enumeration "
@@ -437,12 +465,14 @@ def run(pid):
     if selftest is not None:
         cov["self_test"] = selftest
     if pid == "C08":
+        cov["party_lists"] = len(set(tuple(o["c"]["ids"]) for o in results))
         cov["nt_pairs"] = sorted(set((o["c"]["n"], o["c"]["t"]) for o in results))
         cov["message_lengths"] = sorted(set(o["c"]["L"] for o in results))
     else:
         cov["fields_perturbed"] = sorted(set("%s.%s%s" % (o["c"]["sch"], o["c"]["obj"], "." + o["c"]["field"] if o["c"]["field"] else "")
                                              for o in results if o["c"]["obj"] != "none"))
         cov["kinds"] = sorted(set(o["c"]["kind"] for o in results))
+        cov["party_lists"] = len(set(tuple(o["c"]["ids"]) for o in results))
     vlib.write_evidence(pid, "model_checking", cov, ASSUMPTIONS, violations=len(verdict.violations))
     return rcode
 
